@@ -229,7 +229,47 @@ func c07histories(env sched.Env) *sched.Report {
 	return rep
 }
 
+// C07 (S): several backend connections are lost at about the same time (their client goroutines exit
+// concurrently); afterwards every backend must be reachable again over a new connection.
+func c07concurrentLossBody() {
+	vrand.Fair()
+	cl := cluster.New(3, 0, 3)
+	s := vfStartStack(cl, vfSvcConfig(0, nil, 0))
+	c := s.NewClient("c0")
+	keys := []string{cl.KeyInGroup("k", 0, 0), cl.KeyInGroup("k", 1, 0), cl.KeyInGroup("k", 2, 0)}
+	for _, k := range keys {
+		c.Do("SET", k, "1")
+	}
+	sched.WaitQuiescent()
+	how := sched.Choose(sched.ClsInput, 2, "how")
+	for _, n := range cl.Nodes {
+		n := n
+		sched.GoNamed("fault-"+n.ID, func() {
+			if how == 0 {
+				n.ResetConns()
+			} else {
+				n.CloseConns()
+			}
+		})
+	}
+	sched.WaitQuiescent()
+	for i, k := range keys {
+		v, err := c.Do("GET", k)
+		if err != nil || !resp.Equal(v, resp.BulkS("1")) {
+			sched.Fail("error-reply-although-backend-reachable / after concurrent connection losses", fmt.Sprintf("GET on node %d after all connections were lost at once: %s %v", i, v, err))
+		}
+	}
+	sched.SetOutcome("ok")
+}
+
 func init() {
+	sched.Register(&sched.Scenario{Name: "C07/concurrent-loss", Setup: func(tier string) (sched.Config, func()) {
+		b := sched.Bounds{P: 1, F: 1}
+		if tier == "thorough" {
+			b = sched.Bounds{P: 2, F: 1}
+		}
+		return sched.Config{Bounds: b, Iterative: true, MaxSteps: 100000}, c07concurrentLossBody
+	}})
 	sched.Register(&sched.Scenario{Name: "C07/histories", Custom: c07histories, ReplayCustom: func(in json.RawMessage) []sched.Failure {
 		var cs c07case
 		json.Unmarshal(in, &cs)
